@@ -549,6 +549,140 @@ def desugar_try_for_each(fj, by_path, stats):
     return changed
 
 
+def devirtualise_fn_items(fj):
+    """`f(args)` where f is a local holding a function item (a function passed
+    as `impl Fn*` to a helper that was spliced in): `Fn*::call*(f, (a, b))`
+    becomes the direct call `that_function(a, b)`."""
+    body = fj["body"]
+    blocks = body["blocks"]
+    defs = {}
+    for b in blocks:
+        for st in b["stmts"]:
+            if st.get("k") == "assign" and not st["pl"]["p"]:
+                defs.setdefault(st["pl"]["l"], []).append(st)
+        t = b["term"]
+        if t["k"] in ("call", "tailcall") and t.get("dest") is not None and not t["dest"]["p"]:
+            defs.setdefault(t["dest"]["l"], []).append(None)
+    n = 0
+
+    def fn_item_of(op, depth=0):
+        if op.get("k") == "const":
+            v = op.get("v")
+            return op if isinstance(v, dict) and "fn" in v else None
+        if op.get("k") in ("copy", "move") and not op["pl"]["p"] and depth < 6:
+            ds = defs.get(op["pl"]["l"], [])
+            if len(ds) == 1 and ds[0] is not None and ds[0]["rv"].get("rv") == "use":
+                return fn_item_of(ds[0]["rv"]["op"], depth + 1)
+        return None
+
+    for b in blocks:
+        t = b["term"]
+        if t["k"] != "call" or b["cleanup"]:
+            continue
+        v = t["func"].get("v") if t["func"].get("k") == "const" else None
+        if not isinstance(v, dict) or v.get("name") not in ("call_once", "call_mut", "call") or not (v.get("trait") or "").startswith("std::ops::Fn") or len(t["args"]) != 2:
+            continue
+        item = fn_item_of(t["args"][0])
+        tup = t["args"][1]
+        if item is None or tup.get("k") not in ("copy", "move") or tup["pl"]["p"]:
+            continue
+        tds = defs.get(tup["pl"]["l"], [])
+        if len(tds) != 1 or tds[0] is None or tds[0]["rv"].get("rv") != "aggregate" or tds[0]["rv"].get("agg") != "tuple":
+            continue
+        t["func"] = copy.deepcopy(item)
+        t["args"] = copy.deepcopy(tds[0]["rv"]["ops"])
+        n += 1
+    return n
+
+
+def inline_closure_calls(fj, by_path, stats):
+    """`c(args)` where c is a local holding a closure built in this function (a
+    closure passed as `impl Fn*` to a helper that was spliced in):
+    `Fn*::call*(c, (a, b))` is replaced by the closure body with its captures
+    substituted."""
+    body = fj["body"]
+    blocks = body["blocks"]
+    changed = False
+    for bi in range(len(blocks)):
+        if len(blocks) > MAX_BLOCKS:
+            break
+        b = blocks[bi]
+        t = b["term"]
+        if t["k"] != "call" or b["cleanup"] or t.get("target") is None or t.get("dest") is None:
+            continue
+        v = t["func"].get("v") if t["func"].get("k") == "const" else None
+        if not isinstance(v, dict) or v.get("name") not in ("call_once", "call_mut", "call") or not (v.get("trait") or "").startswith("std::ops::Fn") or len(t["args"]) != 2:
+            continue
+        cl_op, tup = t["args"]
+        if cl_op.get("k") not in ("move", "copy") or cl_op["pl"]["p"] or tup.get("k") not in ("move", "copy") or tup["pl"]["p"]:
+            continue
+        # follow plain moves of the closure value back to its aggregate
+        cl_local = cl_op["pl"]["l"]
+        for _ in range(6):
+            ds = [st for blk in blocks for st in blk["stmts"] if st["k"] == "assign" and st["pl"]["l"] == cl_local and not st["pl"]["p"]]
+            if len(ds) == 1 and ds[0]["rv"].get("rv") == "use" and ds[0]["rv"]["op"].get("k") in ("move", "copy") and not ds[0]["rv"]["op"]["pl"]["p"]:
+                cl_local = ds[0]["rv"]["op"]["pl"]["l"]
+                continue
+            break
+        cg = _closure_of_local_any(blocks, by_path, cl_local)
+        if cg is None:
+            continue
+        g, ups = cg
+        tds = [st for blk in blocks for st in blk["stmts"] if st["k"] == "assign" and st["pl"]["l"] == tup["pl"]["l"] and not st["pl"]["p"]]
+        if len(tds) != 1 or tds[0]["rv"].get("rv") != "aggregate" or tds[0]["rv"].get("agg") != "tuple":
+            continue
+        ops = tds[0]["rv"]["ops"]
+        gb = g["body"]
+        if gb["arg_count"] != 1 + len(ops) or len(gb["blocks"]) + len(blocks) > MAX_BLOCKS:
+            continue
+        by_ref = gb["locals"][1]["ty"].get("k") == "ref"
+        lofs = len(body["locals"])
+        bofs = len(blocks)
+        dest = t["dest"]
+        ret = dest["l"] if not dest["p"] else None
+        new_blocks = []
+        try:
+            for gblk in gb["blocks"]:
+                nb = copy.deepcopy(gblk)
+                for st in nb["stmts"]:
+                    _remap_stmt(st, lofs, ret)
+                nt = nb["term"]
+                if nt["k"] == "return":
+                    if ret is None:
+                        nb["stmts"].append({"k": "assign", "pl": copy.deepcopy(dest), "rv": {"rv": "use", "op": {"k": "move", "pl": {"l": lofs, "p": []}}}, "sp": nt.get("sp"), "exp": True})
+                    nb["term"] = {"k": "goto", "target": t["target"], "sp": nt.get("sp"), "exp": True}
+                else:
+                    _remap_term(nt, lofs, bofs, ret)
+                _rewrite_upvars(nb, lofs + 1, by_ref, ups)
+                new_blocks.append(nb)
+        except ValueError:
+            continue
+        body["locals"].extend(copy.deepcopy(l) for l in gb["locals"])
+        for i, o in enumerate(ops):
+            b["stmts"].append({"k": "assign", "pl": {"l": lofs + 2 + i, "p": []}, "rv": {"rv": "use", "op": copy.deepcopy(o)}, "sp": t.get("sp"), "exp": True})
+        b["term"] = {"k": "goto", "target": bofs, "sp": t.get("sp"), "exp": True}
+        blocks.extend(new_blocks)
+        stats.setdefault(fj["path"], []).append(g["path"] + " (closure call)")
+        changed = True
+    return changed
+
+
+def _closure_of_local_any(blocks, by_path, cl_local):
+    aggs = [st for blk in blocks for st in blk["stmts"] if st["k"] == "assign" and st["pl"]["l"] == cl_local and not st["pl"]["p"]]
+    if len(aggs) != 1 or aggs[0]["rv"].get("rv") != "aggregate" or aggs[0]["rv"].get("agg") != "closure":
+        return None
+    g = by_path.get(aggs[0]["rv"].get("fn"))
+    if g is None or g["kind"] != "Closure":
+        return None
+    ups = {}
+    for i, o in enumerate(aggs[0]["rv"]["ops"]):
+        if o.get("k") in ("move", "copy"):
+            ups[i] = o["pl"]
+        else:
+            return None
+    return g, ups
+
+
 def desugar_struct_update(facts_json):
     """`S { f: v, ..base }` is MIR `S { f: v, g: move base.g, h: copy base.h, .. }`:
     rewrite it into what it means, `x = move base; x.f = v`, so that a record
@@ -649,6 +783,10 @@ def inline_helpers(facts_json, anchors=None):
         for f in facts_json["fns"]:
             if f["path"] in anchors or f["kind"] == "Closure":
                 changed = inline_into(f, by_path, anchors, stats) or changed
+                if devirtualise_fn_items(f):
+                    changed = True
+                if inline_closure_calls(f, by_path, stats):
+                    changed = True
         if not changed:
             break
     facts_json["inlined"] = stats
